@@ -74,12 +74,6 @@ def g_closed(s, P):
             kw['perm'] = perm
         if s.chance(0.4):
             kw['pts'] = s.choice([[12], [10, 12]])
-        if s.chance(0.4):
-            kw['pcont'] = s.choice(['array', 'tuple', 'intlist'] if all(float(v).is_integer() for v in p0) else ['array', 'tuple'])
-        if s.chance(0.25):
-            kw['dmask'] = s.choice([1, 2])
-        if fn != 'FIM' and s.chance(0.3):
-            kw['bcont'] = s.choice(['array', 'tuple'])
         if s.chance(0.15):
             # parameters of very different magnitude (an explicit theta-like weight of 1e4 next to weights of order 1):
             # same information content after rescaling, badly scaled matrices
@@ -90,6 +84,12 @@ def g_closed(s, P):
             p0[j] = p0[j] / sc[j] if p0[j] != 0 else 0.0
         if kw.get('adjusts') and s.chance(0.4):
             kw['acont'] = 'tuple'
+        if s.chance(0.4):
+            kw['pcont'] = s.choice(['array', 'tuple', 'intlist'] if all(float(v).is_integer() for v in p0) else ['array', 'tuple'])
+        if s.chance(0.25):
+            kw['dmask'] = s.choice([1, 2])
+        if fn != 'FIM' and s.chance(0.3):
+            kw['bcont'] = s.choice(['array', 'tuple'])
         P.add('C19.closed_form', fn, k, seed, ns, p0, multinom, eps, s.randint(0, 3), nboot, **kw)
     return P
 
